@@ -72,7 +72,7 @@ def units(tier):
             log = []
             fn = _closed_plus(W, wname, inf, log)
             return dict(unit="K12_closed_plus_" + wname, lang="c", source="include/parmcb/detail/util.hpp closed_plus::operator()",
-                        text="#define true 1\n#define false 0\n" + fn, entry="h_cp", enforce="closed_plus", mode="proof", timeout=120,
+                        text="#define true 1\n#define false 0\n" + fn, entry="h_cp", enforce="closed_plus", mode="proof", timeout=600,
                         rewrites=log, dropped=["template header, struct wrapper, reference-ness of parameters"],
                         functions={"closed_plus<%s>::operator()" % wname: "proved"},
                         assumptions=["finite operands do not overflow the weight type (int: a <= inf - b); weights non-negative and not NaN"],
@@ -83,7 +83,7 @@ def units(tier):
             log = []
             fn = _lex_prefix(W, log)
             return dict(unit="K12_lexcompare_prefix_" + W, lang="c", source="include/parmcb/detail/lex_dijkstra.hpp LexDistanceCompare::operator()",
-                        text=fn, entry="h_lex", enforce="lexcmp", replace=["vp_tail"], mode="proof", timeout=120, rewrites=log,
+                        text=fn, entry="h_lex", enforce="lexcmp", replace=["vp_tail"], mode="proof", timeout=600, rewrites=log,
                         dropped=["template header; set-difference tail (abstracted)"],
                         functions={"LexDistanceCompare scalar prefix <%s>" % W: "proved"},
                         assumptions=["distances are not NaN"], trusted=["cbmc 6.11 SAT back end"])
